@@ -33,6 +33,77 @@ impl Finalize for Ring {}
 
 pub const SIZES: [usize; 9] = [0, 8, 40, 100, 300, 1000, 4000, 16000, 65536];
 
+/// An object with a `Cleaner` whose action creates (and releases) an object: creations made
+/// while a plain reference-count drop runs the action are subject to the trigger rule like any
+/// other (no collection is running), creations made while the collector destroys the owner are not.
+#[cfg(feature = "cleaners")]
+pub struct Maker {
+    next: RefCell<Option<Cc<Maker>>>,
+    cleaner: rust_cc::cleaners::Cleaner,
+}
+#[cfg(feature = "cleaners")]
+unsafe impl Trace for Maker {
+    fn trace(&self, ctx: &mut Context<'_>) {
+        self.next.trace(ctx);
+    }
+}
+#[cfg(feature = "cleaners")]
+impl Finalize for Maker {}
+
+/// One creation observed inside a callback (judged by the main loop, which knows the configuration).
+#[derive(Clone, Copy, Debug)]
+struct Obs {
+    a: usize,
+    b: usize,
+    t: usize,
+    delta: usize,
+    a_after: usize,
+    t_after: usize,
+    new_size: usize,
+    collecting: bool,
+}
+
+thread_local! {
+    static OBS: RefCell<Vec<Obs>> = const { RefCell::new(Vec::new()) };
+}
+
+#[cfg(feature = "cleaners")]
+fn observed_creation(big: bool) {
+    let flags = rust_cc::verif::state_flags().unwrap_or((false, false, false));
+    let a = state::allocated_bytes().unwrap_or(0);
+    let b = state::buffered_objects_count().unwrap_or(0);
+    #[cfg(feature = "auto-collect")]
+    let t = rust_cc::verif::bytes_threshold().unwrap_or(0);
+    #[cfg(not(feature = "auto-collect"))]
+    let t = 0;
+    let e0 = state::executions_count().unwrap_or(0);
+    let (new_size, a_after) = if big {
+        let c = {
+            let _b = crate::alloc::Bracket::open();
+            Cc::new(Leaf { _bytes: [0u8; 1000] })
+        };
+        let sz = crate::alloc::block_at(rust_cc::verif::object_snapshot(&c).box_addr).map_or(0, |b| b.size);
+        let aa = state::allocated_bytes().unwrap_or(0);
+        drop(c);
+        (sz, aa)
+    } else {
+        let c = {
+            let _b = crate::alloc::Bracket::open();
+            Cc::new(Leaf { _bytes: [0u8; 40] })
+        };
+        let sz = crate::alloc::block_at(rust_cc::verif::object_snapshot(&c).box_addr).map_or(0, |b| b.size);
+        let aa = state::allocated_bytes().unwrap_or(0);
+        drop(c);
+        (sz, aa)
+    };
+    let e1 = state::executions_count().unwrap_or(0);
+    #[cfg(feature = "auto-collect")]
+    let t_after = rust_cc::verif::bytes_threshold().unwrap_or(0);
+    #[cfg(not(feature = "auto-collect"))]
+    let t_after = 0;
+    OBS.with(|o| o.borrow_mut().push(Obs { a, b, t, delta: e1.wrapping_sub(e0), a_after, t_after, new_size, collecting: flags.0 }));
+}
+
 enum Held {
     L0(Cc<Leaf<0>>),
     L1(Cc<Leaf<8>>),
@@ -44,6 +115,8 @@ enum Held {
     L7(Cc<Leaf<16000>>),
     L8(Cc<Leaf<65536>>),
     R(Cc<Ring>),
+    #[cfg(feature = "cleaners")]
+    M(Cc<Maker>),
 }
 
 impl Held {
@@ -60,6 +133,8 @@ impl Held {
             Held::L7(c) => drop(c.clone()),
             Held::L8(c) => drop(c.clone()),
             Held::R(c) => drop(c.clone()),
+            #[cfg(feature = "cleaners")]
+            Held::M(c) => drop(c.clone()),
         }
     }
 }
@@ -82,6 +157,10 @@ pub enum POp {
     SetPercent(u8),
     /// buffered threshold: 0 = None, else 1..=8
     SetBuffered(u8),
+    /// an object whose cleaning action creates an object when its owner is destroyed (bit 0: big
+    /// allocation; bits 1..: 0 = kept, 1 = released at once (plain drop), 2..=3 = ring of that many
+    /// makers released (collector path))
+    Maker(u8),
 }
 
 pub const PERCENTS: [f64; 8] = [0.0, 1e-9, 0.05, 0.1, 0.5, 0.9, 0.99, 1.0];
@@ -111,6 +190,7 @@ pub fn strategy(max_ops: usize) -> BoxedStrategy<PCase> {
         1 => any::<bool>().prop_map(POp::SetAuto),
         2 => (0u8..8).prop_map(POp::SetPercent),
         2 => (0u8..9).prop_map(POp::SetBuffered),
+        4 => (0u8..8).prop_map(POp::Maker),
     ];
     prop::collection::vec(op, 1..=max_ops).prop_map(|ops| PCase { ops }).boxed()
 }
@@ -163,10 +243,14 @@ impl Ctx {
     }
 
     fn after_collection_with(&mut self, what: &str, a: usize) {
+        let t = self.threshold();
+        self.judge_threshold(what, a, t);
+    }
+
+    fn judge_threshold(&mut self, what: &str, a: usize, t: usize) {
         if !cfg!(feature = "auto-collect") {
             return;
         }
-        let t = self.threshold();
         if t > self.last_t {
             self.res.grew = true;
         }
@@ -192,6 +276,35 @@ impl Ctx {
             let ok = (a as f64) > (t as f64) * self.pct || t / 2 <= a || t == 100;
             if !ok {
                 self.vio("threshold-too-high", format!("threshold-too-high/{}", what), format!("threshold {} needlessly high: allocated {}, percent {}", t, a, self.pct));
+            }
+        }
+    }
+
+    /// Judges the creations observed inside cleaning actions since the last call.
+    fn drain_observations(&mut self) {
+        let obs: Vec<Obs> = OBS.with(|o| std::mem::take(&mut *o.borrow_mut()));
+        for o in obs {
+            self.res.creations += 1;
+            let by_bytes = o.a > o.t;
+            let by_buf = self.thr.map_or(false, |x| o.b > x);
+            // a creation from a callback of a running collection never starts another one (C12);
+            // one made while a plain reference-count drop runs a cleaning action is like any other
+            let expected = cfg!(feature = "auto-collect") && self.auto && !o.collecting && (by_bytes || by_buf);
+            if self.logging {
+                self.res.log.push(format!("create in action: {:?} -> expected {}", o, expected));
+            }
+            if expected && o.delta != 1 {
+                let sig = format!("trigger-missed/{}/in-action-of-plain-drop", if by_bytes { "bytes" } else { "buffered" });
+                self.vio("trigger-missed", sig, format!("creation inside a cleaning action (no collection running) with bytes {} > threshold {} or buffered {} > {:?} started {} collections", o.a, o.t, o.b, self.thr, o.delta));
+            }
+            if !expected && o.delta != 0 {
+                let sig = format!("trigger-spurious/{}/in-action", if !self.auto { "auto-off" } else if o.collecting { "collector-running" } else { "below-threshold" });
+                self.vio("trigger-spurious", sig, format!("creation inside a cleaning action with bytes {} threshold {} buffered {} thr {:?} auto {} collecting {} started {} collections", o.a, o.t, o.b, self.thr, self.auto, o.collecting, o.delta));
+            }
+            if o.delta == 1 {
+                self.res.triggered += 1;
+                self.judge_threshold("auto-in-action", o.a_after.saturating_sub(o.new_size), o.t_after);
+                self.last_t = o.t_after;
             }
         }
     }
@@ -334,7 +447,37 @@ pub fn run(case: &PCase, logging: bool) -> PResult {
                 }
                 let _ = k;
             }
+            POp::Maker(k) => {
+                #[cfg(feature = "cleaners")]
+                {
+                    let big = k & 1 == 1;
+                    let mode = (k >> 1) & 3;
+                    let n = if mode >= 2 { mode as usize } else { 1 };
+                    let mut v: Vec<Cc<Maker>> = Vec::new();
+                    for _ in 0..n {
+                        let m = ctx.create(Maker { next: RefCell::new(None), cleaner: rust_cc::cleaners::Cleaner::new() });
+                        // registering allocates the cleaner's map object through Cc::new as well: not a
+                        // creation the workload issues, observed only through the byte count
+                        let cl = m.cleaner.register(move || observed_creation(big));
+                        drop(cl);
+                        v.push(m);
+                    }
+                    match mode {
+                        0 => held.push(Held::M(v.pop().unwrap())),
+                        1 => drop(v),
+                        _ => {
+                            for i in 0..n {
+                                let nx = v[(i + 1) % n].clone();
+                                *v[i].next.borrow_mut() = Some(nx);
+                            }
+                            drop(v);
+                        }
+                    }
+                }
+                let _ = k;
+            }
         }
+        ctx.drain_observations();
         // configuration read back
         #[cfg(feature = "auto-collect")]
         {
@@ -347,7 +490,9 @@ pub fn run(case: &PCase, logging: bool) -> PResult {
         }
     }
     drop(held);
+    ctx.drain_observations();
     collect_cycles();
+    ctx.drain_observations();
     ctx.after_collection("final");
     let bytes = state::allocated_bytes().unwrap_or(1);
     if bytes != 0 {
